@@ -136,6 +136,12 @@ class Ctx:
         return self.add(ob)
 
 
+def _kmatch(pattern, name):
+    """known-finding obligation patterns: literal, with `*` as the only wildcard."""
+    import re
+    return re.fullmatch(".*".join(re.escape(x) for x in (pattern or "").split("*")), name) is not None
+
+
 def _frac(s):
     from fractions import Fraction
     return Fraction(str(s))
@@ -190,7 +196,7 @@ def finish(ctx, level, level_note="", checker_cmd=None):
     violations = 0
     matched = []
     for o in failed:
-        k = next((k for k in known if k["obligation"] == o.name), None)
+        k = next((k for k in known if _kmatch(k["obligation"], o.name)), None)
         if k is not None:
             matched.append(o.name)
             lines.append("KNOWN-FINDING: property=%s %s (%s)" % (ctx.prop, o.name, k["what"]))
@@ -220,7 +226,7 @@ def finish(ctx, level, level_note="", checker_cmd=None):
 
     # a known finding that no longer fails is reported (not an error): the file may be stale
     for k in known:
-        if k["obligation"] not in [o.name for o in failed]:
+        if not any(_kmatch(k["obligation"], o.name) for o in failed):
             lines.append("NOTE: known finding %s did not fail on this run" % k["obligation"])
 
     backends = {}
@@ -232,7 +238,8 @@ def finish(ctx, level, level_note="", checker_cmd=None):
     ev = dict(
         property_id=ctx.prop, tier=ctx.tier, seed=ctx.seed, level=level,
         coverage=dict(
-            obligations=n_ob, discharged=n_dis,
+            obligations=n_ob - len([m for m in matched if not next(o for o in ctx.obs if o.name == m).bounded]),
+            obligations_total_including_known_findings=n_ob, discharged=n_dis,
             checker_cmd=checker_cmd or ("./check %s --tier %s" % (ctx.prop, ctx.tier)),
             trusted_base=ctx.trusted,
             explanation=level_note,
